@@ -78,6 +78,35 @@ def dangling_db() -> Dict[str, Any]:
     return {"containers": [{"name": "CD", "layers": [layer]}]}
 
 
+def dangling_dtc_db() -> Dict[str, Any]:
+    """A DTC whose special data group refers to a caption that does not exist: found while the DTC-DOP resolves references."""
+    layer = {"type": "BASE-VARIANT", "name": "LT", "dops": [
+        {"kind": "dtcdop", "name": "dtcbad", "dct": std("A_UINT32", 24), "dtcs": [{"name": "P0001", "code": 1, "sdg_caption_ref": "LT.SDGC.nowhere"}]}],
+        "msgs": [{"kind": "REQUEST", "name": "rq", "params": [P("VALUE", "d", dop="dtcbad")]}], "svcs": []}
+    return {"containers": [{"name": "CT", "layers": [layer]}]}
+
+
+def _build_lenient_db() -> str:
+    """Load the database with the dangling DTC-REF leniently (whatever the current mode is) and keep it."""
+    import odxtools.exceptions
+    prev = odxtools.exceptions.strict_mode
+    set_mode(False)
+    try:
+        _STORED["bad_db"] = emit.load_db(dangling_dtc_db())
+    finally:
+        set_mode(prev)
+    return "built"
+
+
+def _refresh_stored_db() -> Any:
+    """Database.refresh() on a database that was loaded earlier (leniently): the CURRENT mode decides."""
+    if "bad_db" not in _STORED:
+        _build_lenient_db()
+    db = _STORED["bad_db"]
+    db.refresh()
+    return sorted(l.short_name for l in db.diag_layers)
+
+
 def ambiguous_snref_db() -> Dict[str, Any]:
     layer = {"type": "BASE-VARIANT", "name": "LS", "dops": [{"name": "u8", "dct": U8}],
              "msgs": [{"kind": "REQUEST", "name": "rq", "params": [P("VALUE", "v", dop="missing_name", snref=True)]}], "svcs": []}
@@ -218,6 +247,12 @@ def _decode_with_stored_state() -> Any:
     return menu_objs()["rq_utf8"].decode_from_pdu(st)
 
 
+def _with_warnings_as_errors(fn: Callable[[], Any]) -> Any:
+    with warnings.catch_warnings():
+        warnings.simplefilter("error")
+        return fn()
+
+
 def _load_summary(spec: Dict[str, Any]) -> Any:
     db = emit.load_db(spec)
     return sorted(l.short_name for l in db.diag_layers)
@@ -241,6 +276,8 @@ MENU: List[Tuple[str, Callable[[], Any]]] = [
     ("load-directory-with-unparsable-file", lambda: _load_entry("directory")),
     ("load-files-with-unparsable-file", lambda: _load_entry("files")),
     ("load-odx-d-file-unparsable", lambda: _load_entry("odx-d")),
+    # the downgrade does not depend on the interpreter's warning filter (python -W error, pytest filterwarnings = error)
+    ("encode-unknown-parameter-with-warnings-as-errors", lambda: _with_warnings_as_errors(lambda: menu_objs()["rq_v8"].encode(v=1, zz=2))),
     ("load-dangling-reference", lambda: _load_summary(dangling_db())),
     ("load-unresolvable-snref", lambda: _load_summary(ambiguous_snref_db())),
     # control: a mode-insensitive valid operation
@@ -248,6 +285,9 @@ MENU: List[Tuple[str, Callable[[], Any]]] = [
     ("encode-valid-snref-among-names-differing-in-case", lambda: menu_objs()["rq_case"].encode(v=0x1234)),
     # a decode state that was constructed earlier (possibly under another mode) is used after the flip
     ("build-decode-state", lambda: _build_state()),
+    # a database that was loaded leniently is refreshed: the problem is reported again if strict mode is on by then
+    ("load-leniently-and-keep", lambda: _build_lenient_db()),
+    ("refresh-kept-database", lambda: _refresh_stored_db()),
     ("decode-invalid-utf8-with-stored-state", lambda: _decode_with_stored_state()),
     # the command line front end switches the mode itself and must put it back, whatever the tool does
     ("cli-no-strict-list", lambda: _cli(["--no-strict", "list", tiny_pdx()])),
@@ -259,7 +299,7 @@ MENU: List[Tuple[str, Callable[[], Any]]] = [
 ]
 MENU_NAMES = [n for n, _ in MENU]
 CLI_OPS = {"cli-no-strict-list", "cli-no-strict-failing-tool", "cli-strict-failing-tool", "cli-strict-bad-db", "cli-no-strict-bad-db"}
-NEUTRAL_OPS = {"build-decode-state"}
+NEUTRAL_OPS = {"build-decode-state", "load-leniently-and-keep"}
 DOWNGRADABLE = set(MENU_NAMES) - {"encode-valid", "encode-valid-snref-among-names-differing-in-case"} - CLI_OPS - NEUTRAL_OPS
 
 
@@ -446,7 +486,8 @@ def corpus_unit(unit: Tuple[str, List[Dict[str, Any]]]) -> Part:
 def dispatch_db() -> Dict[str, Any]:
     dops = [{"name": "u8", "dct": U8}, {"name": "u16", "dct": std("A_UINT32", 16)},
             {"name": "bmin3", "dct": {"k": "MINMAX", "base": "A_BYTEFIELD", "min": 3, "max": 5, "term": "ZERO"}},
-            {"name": "utf8", "dct": {"k": "MINMAX", "base": "A_UTF8STRING", "min": 1, "max": 4, "term": "ZERO"}}]
+            {"name": "utf8", "dct": {"k": "MINMAX", "base": "A_UTF8STRING", "min": 1, "max": 4, "term": "ZERO"}},
+            {"name": "i8lin", "dct": std("A_INT32", 8), "phys": "A_INT32", "cm": {"cat": "LINEAR", "i2p": [{"num": [1, 2], "den": [1]}]}}]
     cc = lambda n, v: P("CODED-CONST", n, dct=U8, value=v)  # noqa
     msgs = [
         {"kind": "REQUEST", "name": "rq_A", "params": [cc("sid", 0x22), cc("id", 0x01)]},
@@ -458,6 +499,12 @@ def dispatch_db() -> Dict[str, Any]:
         {"kind": "POS-RESPONSE", "name": "pr_C", "params": [cc("sid", 0x50), P("VALUE", "v", dop="u8")]},
         {"kind": "POS-RESPONSE", "name": "pr_D", "params": [cc("sid", 0x50), P("VALUE", "w", dop="u16")]},
     ]
+    # two responses that share their coded constant and are told apart by a PHYS-CONST only (7 <-> byte 03, 9 <-> byte 04)
+    msgs += [
+        {"kind": "REQUEST", "name": "rq_P", "params": [cc("sid", 0x2A)]},
+        {"kind": "POS-RESPONSE", "name": "pr_P1", "params": [cc("sid", 0x6A), P("PHYS-CONST", "rec", dop="i8lin", const=7), P("VALUE", "v", dop="u8")]},
+        {"kind": "POS-RESPONSE", "name": "pr_P2", "params": [cc("sid", 0x6A), P("PHYS-CONST", "rec", dop="i8lin", const=9), P("VALUE", "w", dop="u16")]},
+    ]
     msgs += [
         {"kind": "NEG-RESPONSE", "name": "nr_A", "params": [cc("sid", 0x7F), P("MATCHING-REQUEST-PARAM", "rq", rq_byte=0, len=1),
                                                              P("NRC-CONST", "nrc", dct=U8, values=[0x31, 0x33], byte=2), P("VALUE", "code", dop="u8", byte=2)]},
@@ -465,7 +512,8 @@ def dispatch_db() -> Dict[str, Any]:
                                                                    P("NRC-CONST", "nrc", dct=U8, values=[0x10, 0x11], byte=2), P("VALUE", "code", dop="u8", byte=2)]},
     ]
     svcs = [{"name": "svc_A", "request": "rq_A", "pos": ["pr_A1", "pr_A2", "pr_A3"], "neg": ["nr_A"]},
-            {"name": "svc_C", "request": "rq_C", "pos": ["pr_C"]}, {"name": "svc_D", "request": "rq_D", "pos": ["pr_D"]}]
+            {"name": "svc_C", "request": "rq_C", "pos": ["pr_C"]}, {"name": "svc_D", "request": "rq_D", "pos": ["pr_D"]},
+            {"name": "svc_P", "request": "rq_P", "pos": ["pr_P1", "pr_P2"]}]
     return {"containers": [{"name": "CDI", "layers": [{"type": "BASE-VARIANT", "name": "LDI", "dops": dops, "msgs": msgs, "svcs": svcs}]}]}
 
 
@@ -489,12 +537,13 @@ def dispatch_unit(shard: Tuple[int, int, int]) -> Part:
     set_mode(True)
     db = emit.load_db(dispatch_db())
     layer = db.diag_layers["LDI"]
-    alpha = [0x62, 0x22, 0x10, 0x50, 0x01, 0x00, 0x41, 0xC3, 0x7F, 0x31, 0x11]
+    alpha = [0x62, 0x22, 0x10, 0x50, 0x01, 0x00, 0x41, 0xC3, 0x7F, 0x31, 0x11, 0x6A, 0x03, 0x04]
     msgs = [bytes(t) for ln in range(0, maxlen + 1) for t in itertools.product(alpha, repeat=ln)]
     for i, m in enumerate(msgs):
         if i % n != k:
             continue
         for api, fn in (("decode", lambda: layer.decode(m)), ("decode_response/2201", lambda: layer.decode_response(m, bytes([0x22, 0x01]))),
+                        ("decode_response/2a", lambda: layer.decode_response(m, bytes([0x2A]))),
                         ("decode_response/1005", lambda: layer.decode_response(m, bytes([0x10, 0x05])))):
             part.count("evaluations")
             set_mode(True)
@@ -533,7 +582,7 @@ def run(ctx: Ctx) -> None:
             if name in DOWNGRADABLE:
                 if s[0] != "error":
                     ctx.violation(f"C17/menu/{name}/not-an-error-in-strict-mode", {"mode": "menu", "op": name}, f"fresh strict process: {s}")
-                elif l[0] == "error" and l[1] == s[1]:
+                elif l[0] == "error":  # (every operation of the menu is one whose downgrade lets the call complete)
                     ctx.violation(f"C17/menu/{name}/not-downgraded-in-lenient-mode", {"mode": "menu", "op": name}, f"fresh lenient process: {l}")
             elif name == "cli-strict-bad-db":
                 if s[0] != "error" or l != s:
@@ -581,7 +630,7 @@ def replay(case: Any) -> List[Tuple[str, str]]:
             if name in DOWNGRADABLE:
                 if s[0] != "error":
                     out.append((f"C17/menu/{name}/not-an-error-in-strict-mode", str(s)))
-                elif l[0] == "error" and l[1] == s[1]:
+                elif l[0] == "error":
                     out.append((f"C17/menu/{name}/not-downgraded-in-lenient-mode", str(l)))
             elif name == "cli-strict-bad-db":
                 if s[0] != "error" or l != s:
